@@ -20,6 +20,8 @@ pub enum ROp {
     Reader(usize, usize, u8),
     /// reserve(len) then extend_from_within_unchecked(start, len) — what DecodeBuffer::repeat does
     Within(usize, usize),
+    /// the same through extend_from_within_unchecked_branchless (same contract; not called by the decoder today)
+    WithinBranchless(usize, usize),
     Drop(usize),
     Reserve(usize),
     Clear,
@@ -29,6 +31,8 @@ pub struct RingSys {
     pub max_cap: usize,
     /// if set, Within is restricted to lengths around the wide-copy chunk sizes (Miri / boundary tier)
     pub boundary_only: bool,
+    /// explore the branchless copy for every (start, len), not only the boundary ones
+    pub all_branchless: bool,
 }
 
 pub struct RLive {
@@ -82,6 +86,12 @@ fn apply_ring(r: &mut RingBuffer, op: &ROp, data: &[u8]) -> bool {
             r.reserve(*len);
             // SAFETY (as in DecodeBuffer::repeat): start + len <= len() is guaranteed by the menu, space reserved
             unsafe { r.extend_from_within_unchecked(*start, *len) };
+            true
+        }
+        ROp::WithinBranchless(start, len) => {
+            r.reserve(*len);
+            // SAFETY: same contract as above
+            unsafe { r.extend_from_within_unchecked_branchless(*start, *len) };
             true
         }
         ROp::Drop(n) => {
@@ -200,6 +210,10 @@ impl System for RingSys {
             }
             for start in 0..=(len - clen) {
                 ops.push(ROp::Within(start, clen));
+                // the branchless twin: every (start, len) in the thorough tier, the boundary ones in quick
+                if self.all_branchless || start == 0 || start == len - clen || clen <= 2 || clen == len || [15, 16, 17, 31, 32, 33].contains(&clen) {
+                    ops.push(ROp::WithinBranchless(start, clen));
+                }
             }
         }
         for n in 1..=len {
@@ -242,7 +256,7 @@ impl System for RingSys {
                     return Err("extend_from_reader succeeded although the reader ended early".into());
                 }
             }
-            ROp::Within(start, len) => {
+            ROp::Within(start, len) | ROp::WithinBranchless(start, len) => {
                 for i in 0..*len {
                     let b = l.model[start + i];
                     l.model.push_back(b);
@@ -262,9 +276,9 @@ impl System for RingSys {
         if l.a.verif_state() != l.b.verif_state() {
             return Err(format!("geometry depends on uninitialised bytes: {:?} vs {:?}", l.a.verif_state(), l.b.verif_state()));
         }
-        if let ROp::Reserve(n) | ROp::Within(_, n) = op {
+        if let ROp::Reserve(n) | ROp::Within(_, n) | ROp::WithinBranchless(_, n) = op {
             // reserve must leave room for n (Within: before the copy consumed it)
-            let room = l.a.free() + if matches!(op, ROp::Within(..)) { *n } else { 0 };
+            let room = l.a.free() + if matches!(op, ROp::Within(..) | ROp::WithinBranchless(..)) { *n } else { 0 };
             if room < *n {
                 return Err(format!("reserve({n}) left only {} free", l.a.free()));
             }
@@ -279,6 +293,7 @@ pub fn rop_json(op: &ROp) -> Value {
         ROp::Fill(n) => json!(["fill", n]),
         ROp::Reader(n, g, t) => json!(["reader", n, g, t]),
         ROp::Within(s, l) => json!(["within", s, l]),
+        ROp::WithinBranchless(s, l) => json!(["within_branchless", s, l]),
         ROp::Drop(n) => json!(["drop", n]),
         ROp::Reserve(n) => json!(["reserve", n]),
         ROp::Clear => json!(["clear"]),
@@ -292,6 +307,7 @@ pub fn rop_from(v: &Value) -> ROp {
         "fill" => ROp::Fill(u(1)),
         "reader" => ROp::Reader(u(1), u(2), u(3) as u8),
         "within" => ROp::Within(u(1), u(2)),
+        "within_branchless" => ROp::WithinBranchless(u(1), u(2)),
         "drop" => ROp::Drop(u(1)),
         "reserve" => ROp::Reserve(u(1)),
         "clear" => ROp::Clear,
@@ -607,6 +623,7 @@ fn rop_job(op: &ROp) -> String {
         ROp::Fill(n) => format!("f{n}"),
         ROp::Reader(n, g, t) => format!("r{n},{g},{t}"),
         ROp::Within(s, l) => format!("w{s},{l}"),
+        ROp::WithinBranchless(s, l) => format!("b{s},{l}"),
         ROp::Drop(n) => format!("d{n}"),
         ROp::Reserve(n) => format!("v{n}"),
         ROp::Clear => "c".to_string(),
@@ -617,7 +634,7 @@ fn rop_job(op: &ROp) -> String {
 /// Miri tier (`/verif/c04miri`)
 pub fn dump_jobs(path: &str, max_cap: usize, boundary_only: bool) -> i32 {
     use std::io::Write;
-    let sys = RingSys { max_cap, boundary_only };
+    let sys = RingSys { max_cap, boundary_only, all_branchless: false };
     let mut seen: std::collections::HashMap<(usize, usize, usize), Vec<ROp>> = Default::default();
     let mut queue: VecDeque<Vec<ROp>> = VecDeque::new();
     seen.insert((0, 0, 0), vec![]);
@@ -777,7 +794,7 @@ pub fn main(tier: Tier, replay: Option<Value>) -> i32 {
     let mut transitions = 0u64;
 
     // system 1
-    let sys = RingSys { max_cap, boundary_only: miri };
+    let sys = RingSys { max_cap, boundary_only: miri, all_branchless: tier == Tier::Thorough };
     let (st, found) = xplore::bfs(&sys, &caps);
     println!("C04 ring: cap<={max_cap} states={} transitions={} depth={} exhausted={} {:.1}s {:?}", st.states, st.transitions, st.max_depth, st.exhausted, st.wall_s, st.cap_hit);
     if let Some(n) = &st.nondeterminism {
@@ -844,7 +861,7 @@ fn do_replay(r: &Value) -> i32 {
     for _ in 0..2 {
         let out = match r["system"].as_str().unwrap() {
             "ring" => {
-                let sys = RingSys { max_cap: r["params"]["max_cap"].as_u64().unwrap() as usize, boundary_only: false };
+                let sys = RingSys { max_cap: r["params"]["max_cap"].as_u64().unwrap() as usize, boundary_only: false, all_branchless: true };
                 let ops: Vec<ROp> = ops.iter().map(rop_from).collect();
                 xplore::replay(&sys, &ops).err()
             }
